@@ -316,12 +316,20 @@ def reps_for(slot_, alt, valid_only=False):
     if k == "enum":
         for w in alt.words:
             if isinstance(w, str):
+                if w.lower() == "end":
+                    # an enumerated word that is also the block terminator can only be written quoted (GEOMTRANSFORM "end")
+                    out.append(Rep([("str", w)], w, ["qstr"]))
+                    continue
                 out.append(Rep([("word", w.upper())], w.upper(), ["word"]))
             else:
                 out.append(Rep([("num", str(w))], w, ["num"]))
     elif k == "string":
         for s in STR_REPS:
             out.append(Rep([("str", s)], s, ["qstr"]))
+        if slot_.key == "name":
+            # the parser documents one keyword-looking bare value: NAME grid (parser.py re-tags GRID after NAME)
+            out.append(Rep([("word", "grid")], "grid", ["qstr"], "bare GRID after NAME"))
+            out.append(Rep([("word", "GRID")], "GRID", ["qstr"], "bare GRID after NAME"))
     elif k == "pattern":
         for s in PATTERN_WITNESS.get(alt.pattern, []):
             out.append(Rep([("str", s)], s, ["qstr"]))
